@@ -19,6 +19,9 @@ func TestVerif(t *testing.T) {
 	vrep.Main(t, "github.com/google/licenseclassifier/stringclassifier/searchset", map[string]vrep.Harness{"c17_candidates": c17Candidates, "c17_large": c17Large})
 }
 
+// c17Granularity: the second argument of New (job parameter granularity=N; the package default is 3).
+var c17Granularity = DefaultGranularity
+
 func c17Pair(source, target string) string {
 	msg := ""
 	func() {
@@ -27,8 +30,8 @@ func c17Pair(source, target string) string {
 				msg = fmt.Sprint("panic: ", x)
 			}
 		}()
-		src := New(source, DefaultGranularity)
-		tgt := New(target, DefaultGranularity)
+		src := New(source, c17Granularity)
+		tgt := New(target, c17Granularity)
 		cands := FindPotentialMatches(src, tgt)
 		for ci, mr := range cands {
 			if len(mr) == 0 {
@@ -58,6 +61,8 @@ func c17Pair(source, target string) string {
 
 func c17Candidates(c *vrep.Ctx) {
 	alpha := []string{"a", "b", ","}
+	c17Granularity = c.ParamInt("granularity", DefaultGranularity)
+	c.Bound("granularity", c17Granularity)
 	maxSrc, maxTgt := c.Pick(5, 6), c.Pick(6, 8)
 	if c.Param("alphabet", "") == "ab" {
 		// two-word vocabulary: longer, maximally repetitive sequences
@@ -85,7 +90,7 @@ func c17Candidates(c *vrep.Ctx) {
 		msg := c17Pair(s, t)
 		nc := 0
 		if msg == "" {
-			nc = len(FindPotentialMatches(New(s, DefaultGranularity), New(t, DefaultGranularity)))
+			nc = len(FindPotentialMatches(New(s, c17Granularity), New(t, c17Granularity)))
 		}
 		r.Note = map[string]interface{}{"s": s, "t": t, "msg": msg, "nc": nc}
 	}
@@ -103,7 +108,6 @@ func c17Candidates(c *vrep.Ctx) {
 		}
 	})
 }
-
 
 // c17Large: targets of more than 2^16 (and 2^17) tokens. The source is A + 5 unrelated words + B
 // (30 distinct words each); the target is a long run of filler words with A and B planted at
